@@ -80,12 +80,14 @@ theorem tie_getOrHeadReader :
 first error wins, outcome stored (Model.fetchBody / fetch, Model.C03_Conc.apply). -/
 theorem tie_cacheGet :
     cacheGetConds = ["if len(parts) >= 2", "if err == nil && datasize >= 0", "if c.cache == nil",
-      "if !ok || b.err != nil", "if err == nil", "if err == nil"] ∧
-    cacheGetCalls = ["strings.SplitN", "strconv.ParseInt", "make", "make", "kc.Get", "make", "io.ReadFull",
-      "rdr.Close", "close", "c.Sweep"] ∧
+      "if !ok || b.err != nil", "if err == nil && (size < 0 || size > int64(bufsize))", "if err == nil",
+      "if err == nil"] ∧
+    cacheGetCalls = ["strings.SplitN", "strconv.ParseInt", "make", "make", "kc.Get", "rdr.Close", "make",
+      "io.ReadFull", "rdr.Close", "close", "c.Sweep"] ∧
     cacheGetAssigns = ["cacheKey := locator[:32]", "bufsize := BLOCKSIZE",
       "datasize, err := strconv.ParseInt(parts[1], 10, 32)", "bufsize = int(datasize)",
       "c.cache = make(map[string]*cacheBlock)", "c.cache[cacheKey] = b",
+      "err = fmt.Errorf(\"error reading %q: size %d exceeds buffer size %d\", locator, size, bufsize)",
       "data = make([]byte, size, bufsize)", "_, err = io.ReadFull(rdr, data)", "err2 := rdr.Close()",
       "err = err2", "b.data, b.err = data, err"] := ⟨rfl, rfl, rfl⟩
 
